@@ -123,6 +123,15 @@ def step (c : CS) (l : Line) : CS :=
       let c := if !ok then mism c "SPEC[ecdsa-invalid] ECDSA signature does not verify under the public key (reference verifier)" else branch c "ecdsa/verifies"
       let c := if l.nat "verify0" ≠ 0 then mism c s!"SPEC[verify-rejects-valid] VerifySignature refused a valid ECDSA signature rc={l.nat "verify0"}" else c
       if l.nat "verify1" = 0 then mism c "SPEC[verify-accepts-invalid] VerifySignature accepted a corrupted ECDSA signature" else c
+  | "cmac" =>
+      if l.get? "note" ≠ none then c else
+      let c := { c with rep := { c.rep with events := c.rep.events + 1 } }
+      let chunks := ((l.str "chunks").splitOn ",").map hx
+      let msg := chunks.flatten
+      let c := branch c s!"cmac/bits={l.nat "bits"}/chunks={chunks.length}/len={lenClass msg.length 16}/intr={l.str "intr"}"
+      if l.nat "rc" ≠ 0 then mism c s!"SPEC[mac-refused] CMAC (AES-{l.nat "bits"}, {chunks.length} chunks) rc={l.nat "rc"}" else
+      let exp := cmac (aesEncryptBlock (l.bytes "key")) msg
+      if exp ≠ l.bytes "mac" then mism c s!"SPEC[cmac-mismatch] AES-{l.nat "bits"} CMAC of {msg.length} bytes in chunks {chunks.map (·.length)} (interruptions {l.str "intr"}): reference={hexOfBytes exp} tpm={l.str "mac"}" else c
   | "sym2" =>
       if l.get? "note" ≠ none then c else
       let c := { c with rep := { c.rep with events := c.rep.events + 1 } }
